@@ -335,6 +335,8 @@ def analyse(db, rep, lname, lself, kind):
     return {'fn': fn.path, 'N': N, 'terms': len(result), 'flags': {k: len(v) for k, v in flags.items()},
             'maxidx': maxidx, 'unconditional': sum(1 for t in result if not t.conds)}
 
+THOROUGH_MAIN_CONFIGS = ['b248s6', 'nostd']
+
 
 def run(ctx, rep):
     db = ctx.main
